@@ -25,6 +25,10 @@ SEARCH_SPECS = {
     "eq_repair": '<start> ::= <a> "=" <b>\n<a> ::= <d>{2}\n<b> ::= <d>{2}\n<d> ::= r"[0-9]"\nwhere str(<a>) == str(<b>)\n',
     "len_field": '<start> ::= <len> <payload>\n<len> ::= r"[0-9]"\n<payload> ::= r"[a-z]"*\nwhere int(<len>) == len(str(<payload>))\n',
     "bytes_regex_high": '<start> ::= <h> <p>\n<h> ::= b"\\x01"\n<p> ::= rb"[\\x80-\\xff]{1,2}"\n',
+    # a computed repetition whose symbol also occurs BEFORE the repetition block, with few distinct values (structurally equal siblings)
+    "computed_rep_symbol_before": '<start> ::= <n> <item> ":" <item>{int(<n>)} "."\n<n> ::= r"[2-6]"\n<item> ::= "x" | "y"\n',
+    # a repeated GROUP with a lower bound >= 2 (several children per repetition)
+    "group_rep_min2": '<start> ::= "[" (<k> "=" <v> ";"){2,4} "]"\n<k> ::= "a" | "b"\n<v> ::= r"[0-9]"\n',
     "nested_quant": '<start> ::= <row> ";" <row>\n<row> ::= <x> "," <x>\n<x> ::= "1" | "2"\nwhere forall <r> in <start>.<row>: str(<r>.<x>) == "1"\n',
 }
 # generator specs: name -> (spec text, symbol -> oracle(list of source texts) -> set of admissible texts or None for "any text matching the rule")
@@ -45,6 +49,12 @@ GEN_SPECS = {
                        '<token> ::= <dg>{2} := random.choice(["11", "22", "33"])\n<dg> ::= r"[0-9]"\n'
                        'where <request>.<token> == <response>.<token>\nwhere str(<request>.<token>).endswith("7")\n',
                        {"<token>": lambda src: {"11", "22", "33"}}),
+    # a plain field has to echo a generated one (the generated side is the SOURCE of the equality repair); the generated values
+    # have structure (digits) and contain the same sub-structure twice
+    "gen_echo": ('import random\n<start> ::= <tag> ";" <body>\n<tag> ::= <number> := random.choice(["847847", "473473", "121121"])\n<body> ::= <number>\n'
+                 '<number> ::= <lead> <digit>{0,5}\n<lead> ::= "1" | "2" | "3" | "4" | "5" | "6" | "7" | "8" | "9"\n<digit> ::= "0" | <lead>\n'
+                 'where <body>.<number> == <tag>.<number>\nwhere int(<number>) % 7 == 0\n',
+                 {"<tag>": lambda src: {"847847", "473473", "121121"}}),
     "gen_token_eq": ('import random\n<start> ::= <t1> "/" <t2>\n<t1> ::= <tok>\n<t2> ::= <tok>\n<tok> ::= r"[0-9]{3}" := random.choice(["111", "222", "333"])\nwhere str(<t1>) == str(<t2>)\n',
                      {"<tok>": lambda src: {"111", "222", "333"}}),
 }
@@ -112,7 +122,7 @@ def operator_level(name, text, oracles, rnd, rounds, distinct=None):
                 continue
             for p in check_generators(repaired, oracles):
                 probs.append(("repair_edits_generated_text", p))
-            for j in range(8):
+            for j in range(8 if name != "gen_echo" else 25):
                 try:
                     run = GeneratorWithReturn(SimpleMutation().mutate(repaired, grammar, ev.evaluate_individual))
                     list(run)
@@ -127,8 +137,52 @@ def operator_level(name, text, oracles, rnd, rounds, distinct=None):
     return n_eval, probs
 
 
+def _default_max_repetitions():
+    import fandango.language.grammar.nodes as nodes
+    return nodes.MAX_REPETITIONS
+
+
+_DEFAULT_MAX_REPETITIONS = _default_max_repetitions()      # read at import, before anything ran
+
+
+def repair_level(name, text, rnd, rounds, distinct=None):
+    """C01 at operator level: the constraint-driven repair (fix_individual, incl. insertion / deletion of repetitions of a
+    computed repetition) applied to freshly fuzzed trees must return derivations"""
+    from fandango.evolution import GeneratorWithReturn
+    from fandango.evolution.evaluation import Evaluator
+    from fandango.evolution.population import PopulationManager
+    from fandango.evolution.algorithm import Fandango as Search
+    import fandango.language.grammar.nodes as nodes
+    # earlier search runs of this process leave the module global MAX_REPETITIONS raised (the recorded C18 finding); fuzzed
+    # trees would then carry hundreds of repetitions and the repair would only ever delete.  Start from the default.
+    nodes.MAX_REPETITIONS = _DEFAULT_MAX_REPETITIONS
+    grammar, constraints = _load_text(text)
+    fan = Search(grammar=grammar, constraints=constraints, random_seed=rnd.randint(0, 10 ** 6))      # adds the repetition-bounds constraints
+    n_eval, probs = 0, []
+    for k in range(rounds):
+        random.seed(rnd.randint(0, 10 ** 9))
+        try:
+            tree = grammar.fuzz()
+            ev = fan.evaluator
+            run = GeneratorWithReturn(ev.evaluate_individual(tree))
+            list(run)
+            _f, _failing, suggestion = run.return_value
+            repaired, fixes = fan.population_manager.fix_individual(tree, suggestion)
+        except Exception:
+            continue
+        n_eval += 1
+        if distinct is not None:
+            distinct.add((name, "repair", tree.to_string(), repaired.to_string()))
+        ok, why = valid(grammar, repaired)
+        if not ok:
+            probs.append(("repair_returns_invalid_tree", f"{tree.to_string()!r} repaired to {repaired.to_string()!r}: {why}"))
+    return n_eval, probs
+
+
 def fandango_of(text, seed):
     from fandango import Fandango
+    import fandango.language.grammar.nodes as nodes
+    nodes.MAX_REPETITIONS = _DEFAULT_MAX_REPETITIONS        # every search run starts from the default cap (see repair_level)
     return Fandango(text, use_stdlib=False, use_cache=False)
 
 
@@ -191,6 +245,15 @@ def run_pid(pid, tier, seed):
                             record(name, "generator_field_not_generator_output", p, text)
                 if len(samples) < 8 and sols:
                     samples.append({"spec": name, "population": pop, "solution": sols[0].to_string()[:40]})
+    if pid == "C01":
+        for name, text in SEARCH_SPECS.items():
+            res, to = with_budget(lambda: repair_level(name, text, rnd, 80 if tier == "quick" else 400, distinct), 180)
+            if to or res is None:
+                timeouts += 1
+                continue
+            evaluations += res[0]
+            for kind, detail in res[1]:
+                record(name, kind, detail, text)
     if pid == "C16":
         for name, (text, oracles) in gens.items():
             n_eval, probs = operator_level(name, text, oracles, rnd, 6 if tier == "quick" else 30, distinct)
@@ -209,7 +272,7 @@ def run_pid(pid, tier, seed):
         "rule": (f"{pid}: grammar.fuzz with node budgets 1/5/50 over the shared family and search-heavy specs, and Fandango.fuzz (population "
                  "10; 1 and 10 thorough; 12/40 generations) over constraint, repair and generator specs; every emitted tree is checked; "
                  "distinct = distinct (spec, serialised tree); all non-trivial"),
-        "bound": "seeds from VERIF_SEED; 2 (6 thorough) search runs per spec and population size", "samples": samples, "violations": violations,
+        "bound": "seeds from VERIF_SEED; 2 (6 thorough) search runs per spec and population size; 80 (400) repairs of fuzzed trees per search spec", "samples": samples, "violations": violations,
         "search_runs_over_budget_not_judged": timeouts, "wall_s": round(time.time() - t0, 1),
     }
 
